@@ -21,6 +21,7 @@ def plan(tier, seed):
         P("k-8x72-p%d" % prof, 8, 72, 1, prof, 8)
     for prof in (2, 3, 4):
         P("k-6x134-p%d" % prof, 6, 134, 2, prof, 6, to=2400)
+    P("k-gapword-6x198", 6, 198, 2, 7, 6, extra={"GAPAT": 3, "GAPLEN": 61}, to=2400)
     # nullity exactly 64: n - r == 64 (word-multiple tail of the U copy loop)
     P("k-4x68-null64", 4, 68, 1, 0, 4)
     P("k-6x70-null64", 6, 70, 1, 1, 6)
